@@ -39,7 +39,8 @@ type deferred struct {
 
 type Frame struct {
 	fn        *ssa.Function
-	env       map[ssa.Value]Value
+	env       []Value
+	idx       map[ssa.Value]int
 	defers    []deferred
 	panicking *goPanic
 	visits    map[*ssa.BasicBlock]int
@@ -541,10 +542,8 @@ func (p *Path) get(fr *Frame, v ssa.Value) Value {
 	case nil:
 		return nil
 	}
-	for f := fr; f != nil; f = f.envParent {
-		if r, ok := f.env[v]; ok {
-			return r
-		}
+	if i, ok := fr.idx[v]; ok {
+		return fr.env[i]
 	}
 	panic(fmt.Sprintf("no value for %s in %s", v.Name(), fr.fn))
 }
@@ -712,7 +711,43 @@ func (p *Path) callFunc(fn *ssa.Function, args []Value, free []Value, site *ssa.
 	return p.callBody(fn, args, free)
 }
 
+func (fr *Frame) set(v ssa.Value, val Value) { fr.env[fr.idx[v]] = val }
+
+// valueIndex numbers the SSA values of fn (parameters, free variables, value-producing
+// instructions) once; frames use a slice indexed by that number as environment.
+func (fi *funcInfo) valueIndex(fn *ssa.Function) map[ssa.Value]int {
+	fi.once.Do(func() {
+		m := make(map[ssa.Value]int, 64)
+		for _, p := range fn.Params {
+			m[p] = len(m)
+		}
+		for _, fv := range fn.FreeVars {
+			m[fv] = len(m)
+		}
+		for _, b := range fn.Blocks {
+			for _, ins := range b.Instrs {
+				if v, ok := ins.(ssa.Value); ok {
+					m[v] = len(m)
+				}
+			}
+		}
+		if fn.Recover != nil {
+			for _, ins := range fn.Recover.Instrs {
+				if v, ok := ins.(ssa.Value); ok {
+					if _, seen := m[v]; !seen {
+						m[v] = len(m)
+					}
+				}
+			}
+		}
+		fi.index = m
+	})
+	return fi.index
+}
+
 type funcInfo struct {
+	once      sync.Once
+	index     map[ssa.Value]int
 	name      string
 	intrinsic intrinsicFn
 	pure      bool
@@ -770,15 +805,16 @@ func (p *Path) callBody(fn *ssa.Function, args []Value, free []Value) (ret Value
 	if p.funcsSeen != nil {
 		p.funcsSeen[fn]++
 	}
-	fr := &Frame{fn: fn, env: make(map[ssa.Value]Value, 32), visits: map[*ssa.BasicBlock]int{}}
+	idx := p.eng.funcInfoOf(fn).valueIndex(fn)
+	fr := &Frame{fn: fn, env: make([]Value, len(idx)), idx: idx, visits: map[*ssa.BasicBlock]int{}}
 	if len(args) != len(fn.Params) {
 		panic(fmt.Sprintf("arg count mismatch calling %s: %d vs %d", fn, len(args), len(fn.Params)))
 	}
 	for i, prm := range fn.Params {
-		fr.env[prm] = args[i]
+		fr.set(prm, args[i])
 	}
 	for i, fv := range fn.FreeVars {
-		fr.env[fv] = free[i]
+		fr.set(fv, free[i])
 	}
 	func() {
 		defer func() {
@@ -882,7 +918,7 @@ func (p *Path) execFrom(fr *Frame, b *ssa.BasicBlock) Value {
 				}
 				for i, pred := range b.Preds {
 					if pred == prev {
-						fr.env[x] = p.get(fr, x.Edges[i])
+						fr.set(x, p.get(fr, x.Edges[i]))
 						break
 					}
 				}
@@ -954,11 +990,11 @@ func (p *Path) step(fr *Frame, ins ssa.Instruction) {
 	switch x := ins.(type) {
 	case *ssa.DebugRef:
 	case *ssa.Alloc:
-		fr.env[x] = Ptr{newCell(x.Type().(*types.Pointer).Elem())}
+		fr.set(x, Ptr{newCell(x.Type().(*types.Pointer).Elem())})
 	case *ssa.UnOp:
-		fr.env[x] = p.unop(fr, x)
+		fr.set(x, p.unop(fr, x))
 	case *ssa.BinOp:
-		fr.env[x] = p.binop(x.Op, p.get(fr, x.X), p.get(fr, x.Y), x.X.Type(), x.Type())
+		fr.set(x, p.binop(x.Op, p.get(fr, x.X), p.get(fr, x.Y), x.X.Type(), x.Type()))
 	case *ssa.Store:
 		addr := p.get(fr, x.Addr)
 		cell := p.deref(addr)
@@ -970,20 +1006,20 @@ func (p *Path) step(fr *Frame, ins ssa.Instruction) {
 			panic(unsupported(fmt.Sprintf("FieldAddr into intrinsic type %v (in %s)", base.t, fr.fn)))
 		}
 		base.ensureKids()
-		fr.env[x] = Ptr{base.kids[x.Field]}
+		fr.set(x, Ptr{base.kids[x.Field]})
 	case *ssa.Field:
 		v := p.get(fr, x.X)
 		sv, ok := v.(StructVal)
 		if !ok {
 			panic(unsupported(fmt.Sprintf("Field of %T in %s", v, fr.fn)))
 		}
-		fr.env[x] = sv.field(x.Field)
+		fr.set(x, sv.field(x.Field))
 	case *ssa.IndexAddr:
-		fr.env[x] = p.indexAddr(fr, x)
+		fr.set(x, p.indexAddr(fr, x))
 	case *ssa.Index:
-		fr.env[x] = p.index(fr, x)
+		fr.set(x, p.index(fr, x))
 	case *ssa.Call:
-		fr.env[x] = p.callInstr(fr, &x.Call)
+		fr.set(x, p.callInstr(fr, &x.Call))
 	case *ssa.Defer:
 		p.specForbid("defer")
 		fv, args := p.prepCall(fr, &x.Call)
@@ -995,33 +1031,33 @@ func (p *Path) step(fr *Frame, ins ssa.Instruction) {
 		tv, ok := t.(TupleVal)
 		if !ok {
 			if pz, isP := t.(Poison); isP {
-				fr.env[x] = pz
+				fr.set(x, pz)
 				return
 			}
 			panic(fmt.Sprintf("extract from %T in %s", t, fr.fn))
 		}
-		fr.env[x] = tv[x.Index]
+		fr.set(x, tv[x.Index])
 	case *ssa.MakeInterface:
-		fr.env[x] = IfaceVal{t: x.X.Type(), v: p.get(fr, x.X)}
+		fr.set(x, IfaceVal{t: x.X.Type(), v: p.get(fr, x.X)})
 	case *ssa.ChangeInterface:
-		fr.env[x] = p.get(fr, x.X)
+		fr.set(x, p.get(fr, x.X))
 	case *ssa.ChangeType:
-		fr.env[x] = p.changeType(p.get(fr, x.X), x.Type())
+		fr.set(x, p.changeType(p.get(fr, x.X), x.Type()))
 	case *ssa.Convert:
-		fr.env[x] = p.convert(p.get(fr, x.X), x.X.Type(), x.Type())
+		fr.set(x, p.convert(p.get(fr, x.X), x.X.Type(), x.Type()))
 	case *ssa.MultiConvert:
-		fr.env[x] = p.convert(p.get(fr, x.X), x.X.Type(), x.Type())
+		fr.set(x, p.convert(p.get(fr, x.X), x.X.Type(), x.Type()))
 	case *ssa.TypeAssert:
-		fr.env[x] = p.typeAssert(p.get(fr, x.X), x.AssertedType, x.CommaOk)
+		fr.set(x, p.typeAssert(p.get(fr, x.X), x.AssertedType, x.CommaOk))
 	case *ssa.MakeClosure:
 		free := make([]Value, len(x.Bindings))
 		for i, b := range x.Bindings {
 			free[i] = p.get(fr, b)
 		}
-		fr.env[x] = FuncVal{clo: &Closure{fn: x.Fn.(*ssa.Function), free: free}}
+		fr.set(x, FuncVal{clo: &Closure{fn: x.Fn.(*ssa.Function), free: free}})
 	case *ssa.MakeMap:
 		mt := under(x.Type()).(*types.Map)
-		fr.env[x] = MapVal{newMap(mt.Key(), mt.Elem())}
+		fr.set(x, MapVal{newMap(mt.Key(), mt.Elem())})
 	case *ssa.MakeSlice:
 		st := under(x.Type()).(*types.Slice)
 		n := p.concreteInt(p.get(fr, x.Len), "make slice len")
@@ -1036,16 +1072,16 @@ func (p *Path) step(fr *Frame, ins ssa.Instruction) {
 		for i := range b.cells {
 			b.cells[i] = newCell(st.Elem())
 		}
-		fr.env[x] = SliceVal{b: b, len: n, cap: c}
+		fr.set(x, SliceVal{b: b, len: n, cap: c})
 	case *ssa.MakeChan:
 		n := p.concreteInt(p.get(fr, x.Size), "make chan size")
-		fr.env[x] = ChanVal{&ChanObj{cap: n}}
+		fr.set(x, ChanVal{&ChanObj{cap: n}})
 	case *ssa.Slice:
-		fr.env[x] = p.sliceOp(fr, x)
+		fr.set(x, p.sliceOp(fr, x))
 	case *ssa.SliceToArrayPointer:
 		panic(unsupported("SliceToArrayPointer"))
 	case *ssa.Lookup:
-		fr.env[x] = p.lookup(fr, x)
+		fr.set(x, p.lookup(fr, x))
 	case *ssa.MapUpdate:
 		p.specForbid("map update")
 		m := p.get(fr, x.Map).(MapVal)
@@ -1059,12 +1095,12 @@ func (p *Path) step(fr *Frame, ins ssa.Instruction) {
 		}
 		m.m.set(k, kk, p.get(fr, x.Value))
 	case *ssa.Range:
-		fr.env[x] = p.rangeStart(p.get(fr, x.X))
+		fr.set(x, p.rangeStart(p.get(fr, x.X)))
 	case *ssa.Next:
-		fr.env[x] = p.rangeNext(p.get(fr, x.Iter).(*RangeIter), x)
+		fr.set(x, p.rangeNext(p.get(fr, x.Iter).(*RangeIter), x))
 	case *ssa.Select:
 		p.specForbid("select")
-		fr.env[x] = p.selectOp(fr, x)
+		fr.set(x, p.selectOp(fr, x))
 	case *ssa.Send:
 		p.specForbid("send")
 		ch := p.get(fr, x.Chan).(ChanVal)
